@@ -62,13 +62,14 @@ def _history(draw):
     ops = []
     fr = st.sampled_from([0.01, -0.02, 0.03, 0.5, 1.5, 2.0, -1.0, 1.0, 0.25, 0.002])
     for _ in range(draw(st.integers(2, 6))):
-        kind = draw(st.sampled_from(["integrate", "integrate", "integrate_to", "set_tf", "set_tf", "set_dt", "integrate_to_fault"]))
+        kind = draw(st.sampled_from(["integrate", "integrate", "integrate_to", "set_tf", "set_tf", "set_dt", "scale_dt", "integrate_to_fault"]))
         if kind == "integrate":
             ops.append([kind])
         elif kind == "integrate_to_fault":
             # integrate(t) during whose LAST (clipped) step the right-hand side raises, at its k-th evaluation inside that step
             ops.append([kind, draw(fr), draw(st.integers(1, 4))])
-        elif kind == "set_dt":
+        elif kind in ("set_dt", "scale_dt"):
+            # (scale_dt is `system.dt *= factor`: the array the getter hands out is scaled IN PLACE and then assigned back)
             ops.append([kind, draw(st.sampled_from([0.5, 2.0, 0.3]))])
         else:
             ops.append([kind, draw(fr)])
@@ -120,6 +121,14 @@ def _check_history(case):
         if kind == "set_dt":
             a.dt = float(a.dt) * op[1]
             Dreq = abs(float(a.dt))
+            continue
+        if kind == "scale_dt":
+            before_ = abs(float(a.dt))
+            a.dt *= op[1]
+            Dreq = abs(float(a.dt))
+            if abs(Dreq - before_ * op[1]) > 1e-12 * Dreq:
+                viols.append(V("dt_assignment", "`system.dt *= {}` turned dt = {!r} into {!r}".format(op[1], before_, Dreq), fam, **attrs))
+                break
             continue
         if kind == "set_tf":
             try:
